@@ -176,7 +176,7 @@ theorem push_legal_of_wf_post (a : Abs) (hd t : Ptr) (front : Bool) (hm : hd ∈
   · exact ⟨hm, key⟩
 
 /-- **a move is legal whenever its result is well formed** (and the target is not the source). -/
-theorem move_legal_of_wf_post (a : Abs) (pre : AbsWf a) (new old : Ptr) (hm : old ∈ a.heads) (hne : new ≠ old)
+theorem move_legal_of_wf_post (a : Abs) (new old : Ptr) (hm : old ∈ a.heads) (hne : new ≠ old)
     (post : AbsWf (a.step (.moveList new old))) : a.legal (.moveList new old) := by
   refine ⟨hm, ?_⟩
   rintro ⟨hd2, h2, m⟩
@@ -204,6 +204,60 @@ theorem move_legal_of_wf_post (a : Abs) (pre : AbsWf a) (new old : Ptr) (hm : ol
       have := post.disj new hnewhead hd2 h2' (Ne.symm e2) new (by simp)
       rw [hl] at this
       exact this m
+
+
+/-- a new list object is legal whenever the result is well formed. -/
+theorem newList_legal_of_wf_post (a : Abs) (hd : Ptr) (post : AbsWf (a.step (.newList hd))) : a.legal (.newList hd) := by
+  rintro ⟨hd2, h2, m⟩
+  by_cases e : hd2 = hd
+  · subst e
+    have := post.heads_nodup
+    simp only [Abs.step, List.nodup_cons] at this
+    exact this.1 h2
+  · have hl : (a.step (.newList hd)).lists hd2 = a.lists hd2 := by simp [Abs.step, e]
+    have := post.disj hd (by simp [Abs.step]) hd2 (by simp [Abs.step, h2]) (Ne.symm e) hd (by simp)
+    rw [hl] at this
+    exact this m
+
+/-- the part of legality that is not about well-formedness: list objects are used as list objects and elements as
+    elements (in the library: by their C++ types), and `~list()` of an `ignore_disposer` list runs only on an empty one. -/
+def _root_.Tromp.Ring.Abs.typed (a : Abs) : Op → Prop
+  | .newList _ => True
+  | .pushFront hd _ => hd ∈ a.heads
+  | .pushBack hd _ => hd ∈ a.heads
+  | .unlink x => x ∉ a.heads
+  | .moveList new old => old ∈ a.heads ∧ new ≠ old
+  | .dropList hd => hd ∈ a.heads ∧ a.lists hd = []
+  | .disposeList hd => hd ∈ a.heads
+
+/-- **every operation whose result is a well-formed list family is legal** — so a script all of whose intermediate
+    list families are well formed (what the World invariant `WF` asserts of the World's lists) is a legal ring script, and
+    `ring_refines_lists` applies to it. -/
+theorem legal_of_wf_post (a : Abs) (op : Op) (ht : a.typed op) (post : AbsWf (a.step op)) : a.legal op := by
+  cases op with
+  | newList hd => exact newList_legal_of_wf_post a hd post
+  | pushFront hd t => exact push_legal_of_wf_post a hd t true ht post
+  | pushBack hd t => exact push_legal_of_wf_post a hd t false ht post
+  | unlink x => exact ht
+  | moveList new old => exact move_legal_of_wf_post a new old ht.1 ht.2 post
+  | dropList hd => exact ht
+  | disposeList hd => exact ht
+
+/-- every operation of the script is well typed and leaves a well-formed list family. -/
+def WfRun : Abs → List Op → Prop
+  | _, [] => True
+  | a, op :: ops => a.typed op ∧ AbsWf (a.step op) ∧ WfRun (a.step op) ops
+
+theorem legalRun_of_wfRun (a : Abs) (ops : List Op) (h : WfRun a ops) : legalRun a ops := by
+  induction ops generalizing a with
+  | nil => trivial
+  | cons op ops ih => exact ⟨legal_of_wf_post a op h.1 h.2.1, ih _ h.2.2⟩
+
+/-- **C14 (ring), from the lists' well-formedness to the heap.**  A script whose list families are well formed throughout
+    is realised by the C++ ring operations: the heap represents the lists after it. -/
+theorem heap_realises_wf_script (ops : List Op) (h : WfRun Abs.init ops) :
+    Rep (run (Abs.init, Heap.init) ops).2 (run (Abs.init, Heap.init) ops).1 :=
+  rep_run rep_init ops (legalRun_of_wfRun _ ops h)
 
 /-! ### non-vacuity: a concrete script with two lists, pushes at both ends, removal from the middle, a move, a disposal -/
 
